@@ -253,19 +253,47 @@ def check(prop):
         chunks.append(cur)
     gen = {"BqlU.tla": bqlu.bqlu_tla()}
 
-    def one(idxs):
+    too_slow = []
+
+    def tlc(idxs, timeout):
         path = os.path.join(d, "stmt.chunk%05d.ndjson" % idxs[0])
         with open(path, "w") as fh:
             for i in idxs:
                 fh.write(json.dumps(events[i]) + "\n")
-        r = vlib.run_tlc("StatementTrace", "StatementTrace.cfg", gen=gen, env={"TRACE_FILE": path}, workers=1, timeout=3000, heap="3g")
+        r = vlib.run_tlc("StatementTrace", "StatementTrace.cfg", gen=gen, env={"TRACE_FILE": path}, workers=1, timeout=timeout, heap="3g")
         if r.violation:
             raise Infra("statement trace not consumed: %s\n%s" % (r.violation, r.out[-3000:]))
-        return idxs, r
+        return r
+
+    def one(idxs):
+        try:
+            return [(idxs, tlc(idxs, 1500))]
+        except Infra as e:
+            if "TLC timeout" not in str(e):
+                raise
+        # a chunk (some thirty sequences) that TLC does not finish: its sequences one by one; a sequence that alone
+        # takes more than ten minutes (a CONSTRUCT over a product of many solutions) is counted as not judged
+        res, cur = [], []
+        seqs = []
+        for i in idxs:
+            if events[i]["ev"] == "R" and cur:
+                seqs.append(cur)
+                cur = []
+            cur.append(i)
+        if cur:
+            seqs.append(cur)
+        for sq in seqs:
+            try:
+                res.append((sq, tlc(sq, 600)))
+            except Infra as e:
+                if "TLC timeout" not in str(e):
+                    raise
+                too_slow.append([evmeta[i][0]["text"][:200] for i in sq if evmeta[i][0]][:12])
+        return res
 
     states, opens, nrej = 0, 0, 0
     with cf.ThreadPoolExecutor(max_workers=14) as ex:
-        for idxs, r in ex.map(one, chunks):
+        for idxs, r in (x for lst in ex.map(one, chunks) for x in lst):
             states += r.distinct
             opens += len(vlib.parse_printed(r.printed, "OPEN"))
             for rj in vlib.parse_printed(r.printed, "REJECT"):
@@ -277,7 +305,10 @@ def check(prop):
                                  "before": [(gl["g"], gl["x"], len(gl["ts"])) for gl in prev],
                                  "after": [(gl["g"], gl["x"], len(gl["ts"])) for gl in rr["after"]]},
                          {"case": c, "event": events[i], "previous_event": events[i - 1] if i > 0 else None})
-    v.cov.update({"states": states, "transitions": len(events), "traces_validated_against_impl": nseq,
+    if len(too_slow) > max(3, nseq // 100):
+        raise Infra("%d statement sequences are too expensive for TLC (more than ten minutes each)" % len(too_slow))
+    v.cov.update({"states": states, "transitions": len(events), "traces_validated_against_impl": nseq - len(too_slow),
+                  "sequences_too_expensive_for_the_model_not_judged": len(too_slow), "sequences_too_expensive_samples": too_slow[:2],
                   "statements": stats["stmts"], "by_kind": stats["by_kind"], "rejected_by_parser": stats["perr"],
                   "failed_in_execution": stats["err"], "reification_constructs": stats["reified"],
                   "blank_nodes_seen": len(blanks), "open_not_judged": opens, "rejected_events": nrej,
